@@ -12,7 +12,7 @@ from ..harness import digest
 
 MANIFEST = {
     'text': 'Held on every spectrum computed: hilberthuang (dense, sparse) and hilberthuang_1d are compared with a brute-force per-sample histogram on EVERY frequency array with up to 3 (quick) / 4 (thorough) samples whose entries are drawn from the edge-hitting pool {every bin edge, the floats just below and above each edge, below the first edge, above the last, negative, 0}, for linear and log bin sets of 1..4 bins, both modes and every [time x IMF] shape, plus seeded random arrays (T<=50, M<=4, 1..24 bins); dense, sparse and marginal forms must agree with the reference and with each other (1e-12 of the total). define_hist_bins(_from_data) are checked for edge count, monotonicity, end points and midpoints. Exhaustive at the stated bound, sampling beyond. Schedules: the same deterministic calls made from 4-5 threads of one interpreter at once (thread switch every 1-10 microseconds) must reproduce the results obtained alone. Returned spectra (while the caller refills its input arrays) are held untouched and re-read after later calls. A quarter of the shards run in a session that turns Deprecation/Future/UserWarnings into errors.',
-    'note': 'Trusted: numpy/scipy.sparse. NaN frequencies are outside the property\'s quantifier and not generated.',
+    'note': 'Trusted: numpy/scipy.sparse. A NaN frequency estimate belongs to no bin (the other samples are binned as usual); big-endian amplitude arrays are not generated (scipy.sparse refuses them).',
     'technique': 'brute-force reference histogram vs the real spectra, exhaustive edge-hitting enumeration + seeded random',
 }
 LOGGER_ON_ODD_SHARDS = True
